@@ -323,8 +323,10 @@ class USBTokenDetector(Elaboratable):
                         m.next = "IRRELEVANT"
 
                         # A packet with a damaged PID could have been a token; make sure endpoints
-                        # don't attribute what follows to the previous token.
-                        with m.If(~is_valid_pid):
+                        # don't attribute what follows to the previous token. The same goes for the special
+                        # PIDs we don't handle (reserved, PRE/ERR, SPLIT): nothing that follows those is ours.
+                        is_special_pid = (self.utmi.rx_data[0:2] == 0b00)
+                        with m.If(~is_valid_pid | is_special_pid):
                             m.d.usb += self.interface.pid.eq(0)
 
 
